@@ -168,6 +168,10 @@ mod replay {
         }
         /// called from the instrumented code (and from the handler)
         fn arrive(&self, name: &'static str, val: i64) {
+            // hook points of other properties (C11: "ex.*", "ctl.*") are not steps of this model: pass through
+            if !matches!(name.split('.').next(), Some("al" | "ap" | "co" | "ct" | "rm" | "sh")) {
+                return;
+            }
             let tid = current_tid();
             let mut g = self.inner.lock().unwrap();
             // role assignment by the first point a thread reaches
